@@ -292,10 +292,8 @@ def sigma_filter(filename, region, step_size, box_size, shape, domask,
 
     # wait for all to complete
     _verif_point(ymin, 'b1')
-    i = barrier.wait()
+    barrier.wait()
     _verif_point(ymin, 'a1')
-    if i == 0:
-        barrier.reset()
 
     logging.debug("background subtraction")
     data[0 + ymin - data_row_min: data.shape[0] -
@@ -323,10 +321,8 @@ def sigma_filter(filename, region, step_size, box_size, shape, domask,
     if domask:
         # wait for all to complete
         _verif_point(ymin, 'b2')
-        i = barrier.wait()
+        barrier.wait()
         _verif_point(ymin, 'a2')
-        if i == 0:
-            barrier.reset()
 
         _verif_point(ymin, 'mk')
         logging.debug("applying mask")
